@@ -48,6 +48,17 @@ out.append("\n## 6. Seeded property-breaking changes (written by independent age
            "Each change compiles, keeps the existing test suite green and comes with a demonstration that fails with it and passes without;\n"
            "all of that was re-confirmed in a scratch worktree (`lib/muttest.sh`) before the change was kept under `seeded/`.\n\n"
            "| Property | Id | Change | Needs to manifest | Caught by |\n|---|---|---|---|---|\n")
+n_all = len(rows)
+n_missed = sum(1 for r in rows if "missed by the first version" in r[5] or "first version of the check itself hung" in r[5] or "MISSED" in r[5])
+n_weak = sum(1 for r in rows if "only as a broken correspondence" in r[5] or "no-failing-input-found" in r[5] and "first version" in r[5])
+out.insert(len(out) - 1, "")
+out[-1] = out[-1].replace("| Property | Id |", ("**Campaign.** %d changes were kept, written in four rounds by fresh agents that saw only the text of one property and a scratch worktree "
+    "(later rounds were told what had been tried and asked for mechanisms far from it: callers in other packages, configuration and flag handling, "
+    "start-up and shutdown order, error and retry paths, whole-pipeline effects). %d of them were MISSED by the check as it stood when they were written and %d more were "
+    "reported only as a broken correspondence without a failing input; every one of these led to a strengthening (a new leg, generator dimension, monitor or theorem - "
+    "named in the last column) and is now reported with a concrete failing input. Four of the strengthenings exposed genuine defects of the "
+    "unchanged code that were then repaired (`fix:` commits d7c4d36, 55466e0, 3ec1779, 210c439). Three thorough-tier false alarms of the checks themselves "
+    "(C04, C10, C15/C16 under load) were found and corrected along the way (described in the sections of those properties).\n\n| Property | Id |") % (n_all, n_missed, n_weak), 1)
 for r in rows:
     out.append("| %s | %s | %s | %s | %s%s |\n" % (r[0], r[1], r[2].replace("|", "/"), r[3].replace("|", "/"), r[4].replace("|", "/"), (" - " + r[5]) if r[5] else ""))
 out.append("\n" + rd(os.path.join(D, "99-trusted.md")))
